@@ -26,7 +26,11 @@ def main(tier):
         "marked set is asserted to be the least set containing the flagged templates and closed under 'includes a "
         "marked one' (soundness, completeness, minimality). The memo-coherence precondition of each lookup inside "
         "the loop is an obligation (C10 ghost flag): without a fresh lookup the invariant cannot be re-established. "
-        "Termination and the two redirect UPDATE statements are NOT proved (SQL is external): bounded tier only. "
+        "Termination of the worklist loop is an obligation too: the variant 2*|unmarked templates| + |worklist| is "
+        "non-negative and strictly decreases in every iteration (the inner loop carries `measure < variant_at_head`); "
+        "|unmarked templates| is an uninterpreted function of the marked set with the cardinality axioms of a finite "
+        "table instantiated at each set_template_pre_expand. The two `for` loops iterate finite collections "
+        "(assumed). The two redirect UPDATE statements are NOT proved (SQL is external): bounded tier only. "
         "B: real analyze_templates on real SQLite, see bounded_tier.")
     rep.assumptions += [
         "abstract (SQL-level) contracts: get_all_pages([template ns]) yields every template page once; "
@@ -34,7 +38,8 @@ def main(tier):
         "that page with its current flag when the memo is coherent (validated by the bounded tier on real SQLite)",
         "check_template_func is a function of the page (uses, flag) and does not write the table",
         "inclusion is matched by exact string between the used name and the stored title minus the local prefix",
-        "termination of the worklist loop is not proved (watchdog in the bounded tier)",
+        "the pages table is finite: CARD_UNMARKED(M) >= 0, and marking an unmarked template page decreases it by one "
+        "(axioms instantiated at set_template_pre_expand); get_all_pages and the classifier's name sets are finite",
     ]
     return rep.finish(replayer=replay, expected_min_functions=1)
 
